@@ -124,8 +124,10 @@ type fakeSrv struct {
 	noMore   bool          // a response said more_results = false
 	maxSync  int           // cut-off for a scanner that does not make progress
 	wire     bool          // responses reach the scanner decoded from their wire form (cellblock)
+	slowOpen bool          // opening a region scanner (except the first) takes longer than the renew interval
 	flyAt    int           // the answer to this request is lost: the scan's context ends while it is in flight
 	cancelFn func()
+	expectX  string // scanner id the client is expected to close after a lost continuation
 }
 
 var errInjected = errors.New("injected rpc failure")
@@ -187,6 +189,19 @@ func (f *fakeSrv) SendRPC(call hrpc.Call) (proto.Message, error) {
 		f.trace = append(f.trace, "D/-/-/-/0/0")
 		f.mu.Unlock()
 		return nil, err
+	}
+	if f.slowOpen && !scan.RenewalScan() {
+		// a region that takes a while to open its scanner (busy server, region just moved): longer
+		// than the renew interval of the scan
+		scan.SetRegion(f.info(f.c.regionOf(scan.Key(), scan.Reversed())))
+		if r := scan.ToProto().(*pb.ScanRequest); r.ScannerId == nil {
+			f.mu.Lock()
+			first := f.nsync == 0
+			f.mu.Unlock()
+			if !first {
+				time.Sleep(3 * renewEvery)
+			}
+		}
 	}
 	f.mu.Lock()
 	defer f.mu.Unlock()
@@ -336,6 +351,10 @@ func (f *fakeSrv) SendRPC(call hrpc.Call) (proto.Message, error) {
 			f.replies = append(f.replies, "E/lostopen")
 		} else {
 			f.replies = append(f.replies, "E/canceled")
+		}
+		if !isOpen {
+			// the client named this scanner in the lost request: it knows the id and owes it a close
+			f.expectX = fmt.Sprint(req.GetScannerId())
 		}
 		f.cancelFn()
 		return nil, context.Canceled
@@ -500,8 +519,9 @@ type endPlan struct {
 }
 
 type runCfg struct {
-	renew       bool // the scan renews its scanner lease (RenewInterval) and the consumer is slow
-	silentClose bool // the server never answers close requests
+	renew       bool          // the scan renews its scanner lease (RenewInterval) and the consumer is slow
+	silentClose bool          // the server never answers close requests
+	sharedHold  chan struct{} // with silentClose: the close answers of several scans are held back together
 	hb          int
 	maxFrags    int
 	chaos       *RNG
@@ -662,7 +682,10 @@ func runScan(c *scanCase, ch *chooser, plan endPlan, cfg runCfg) runOut {
 	if plan.kind == "cancelfly" {
 		f.flyAt = plan.n
 	}
-	if cfg.silentClose {
+	f.slowOpen = cfg.renew && cfg.idBase%2 == 1
+	if cfg.silentClose && cfg.sharedHold != nil {
+		f.release = cfg.sharedHold
+	} else if cfg.silentClose {
 		f.release = make(chan struct{})
 		defer close(f.release)
 	}
@@ -780,18 +803,28 @@ func runScan(c *scanCase, ch *chooser, plan endPlan, cfg runCfg) runOut {
 		}
 	}
 	if plan.kind == "cancelfly" {
-		// the server is ahead of what the client knows (its last answer was lost): a close request may
-		// still be on its way for a scanner the server has already dropped; wait until the
-		// conversation has been quiet for a while
-		last, since, t0 := -1, time.Now(), time.Now()
-		for time.Since(since) < 300*time.Microsecond && time.Since(t0) < 50*time.Millisecond {
-			f.mu.Lock()
-			n := len(f.trace)
-			f.mu.Unlock()
-			if n != last {
-				last, since = n, time.Now()
+		// the server is ahead of what the client knows (the answer to a continuation was lost): the
+		// client still owes the scanner it named a close request, which is sent asynchronously; wait
+		// for it (bounded) so that the conversation is complete when it is judged
+		f.mu.Lock()
+		want := f.expectX
+		f.mu.Unlock()
+		if want != "" {
+			deadline := time.Now().Add(500 * time.Millisecond)
+			for time.Now().Before(deadline) {
+				f.mu.Lock()
+				seen := false
+				for _, t := range f.trace {
+					if p := strings.Split(t, "/"); len(p) == 6 && p[0] == "X" && p[3] == want {
+						seen = true
+					}
+				}
+				f.mu.Unlock()
+				if seen {
+					break
+				}
+				runtime.Gosched()
 			}
-			runtime.Gosched()
 		}
 	}
 	f.mu.Lock()
@@ -1094,4 +1127,18 @@ func runC14(tier string, seed uint64, out *Out) {
 		s := rng.Next()
 		allEnds(out, c, func() *chooser { return &chooser{rng: NewRNG(s, "script")} }, cfg)
 	}
+	// (3) many scans given up early while the servers are slow to answer close requests: every one
+	// of them still sends its close (the requests pile up; none is dropped)
+	hold := make(chan struct{})
+	for i := 0; i < 60; i++ {
+		c := randCase(rng, 8, 5)
+		c.closing = false
+		cfg := runCfg{hb: 0, maxFrags: 1, idBase: uint64(300 + i), silentClose: true, sharedHold: hold}
+		plan := endPlan{kind: "close", n: 1}
+		if i%2 == 1 {
+			plan.kind = "cancel"
+		}
+		emit(out, c, &chooser{rng: NewRNG(rng.Next(), "script")}, plan, cfg)
+	}
+	close(hold)
 }
